@@ -119,7 +119,10 @@ pub trait DynEq { spec fn val(&self) -> int; }
 #[verifier::external_body]
 pub struct AnyBox { p: core::marker::PhantomData<u8> }
 
-pub trait Database {}
+pub trait Database: Sized {
+    spec fn storage_spec(&self) -> &Storage<Self>;
+    fn get_storage(&self) -> (r: &Storage<Self>) ensures r == self.storage_spec();
+}
 use core::marker::PhantomData;
 
 // R8: interned ids as integer newtypes
@@ -179,7 +182,6 @@ impl Epoch {
         ensures
             final(self).t() == old(self).t() + 1, //@O C01.epoch_increment_strict
             r == *final(self), //@O C01.epoch_increment_returns_new
-        //@canary CANARY.epoch_increment final(self).t() == old(self).t(),
 //@end
 }
 
@@ -210,10 +212,39 @@ impl<T> SourceId<T> {
     pub fn from_key(key: Key) -> (r: Self) ensures r.key == key { SourceId { key, phantom: PhantomData } }
 }
 
-#[derive(Clone, Copy)]
-pub struct Dependency { pub node_to: NodeKind, pub time_verified_or_updated: Epoch }
-#[derive(Clone, Copy, PartialEq, Eq, Structural)]
-pub enum NodeKind { Source(Key), Derived(DerivedNodeId) }
+//@item rel=crates/pico/src/dependency.rs kind=struct name=Dependency prefix="#[derive(Clone, Copy)] pub"
+//@item rel=crates/pico/src/dependency.rs kind=enum name=NodeKind prefix="#[derive(Clone, Copy, PartialEq, Eq, Structural)] pub"
+//@item rel=crates/pico/src/dependency.rs kind=struct name=TrackedDependencies prefix="pub"
+
+impl TrackedDependencies {
+//@fn rel=crates/pico/src/dependency.rs name=new within="impl TrackedDependencies" vis=pub ret=r rename=td_new serves=C01,C02
+//@sub "vec!\[\]" => "Vec::new()" n=1
+//@contract
+        ensures
+            r.dependencies@.len() == 0 && r.max_time_updated.t() == 1 && r.derived_node_id == derived_node_id, //@O C01+C02.O-6_tracked_new_empty
+//@end
+
+//@fn rel=crates/pico/src/dependency.rs name=push within="impl TrackedDependencies" vis=pub rename=td_push serves=C01,C02
+//@rw R3
+//@sub "std::cmp::max\(" => "epoch_max(" n=*
+//@contract
+        ensures
+            // max, not overwrite: the parent's time_updated can only grow
+            final(self).max_time_updated.t() == (if time_updated.t() >= old(self).max_time_updated.t() { time_updated.t() } else { old(self).max_time_updated.t() }), //@O C01+C02.O-6_push_max_time_updated_is_max
+            // the dependency is recorded, last, with the newest verification time
+            final(self).dependencies@.len() > 0
+                && final(self).dependencies@.last().node_to == dependency.node_to
+                && final(self).dependencies@.last().time_verified_or_updated == dependency.time_verified_or_updated, //@O C01.O-6_push_records_dependency
+            // earlier entries are untouched (only a same-node LAST entry may be coalesced)
+            (final(self).dependencies@.len() == old(self).dependencies@.len() + 1
+                && final(self).dependencies@.drop_last() == old(self).dependencies@)
+            || (old(self).dependencies@.len() > 0
+                && old(self).dependencies@.last().node_to == dependency.node_to
+                && final(self).dependencies@.len() == old(self).dependencies@.len()
+                && final(self).dependencies@.drop_last() == old(self).dependencies@.drop_last()), //@O C01+C02.O-6_push_frame_earlier_dependencies
+            final(self).derived_node_id == old(self).derived_node_id,
+//@end
+}
 #[derive(Clone, Copy)]
 pub struct DerivedNodeRevision {
     pub time_updated: Epoch,
@@ -276,7 +307,6 @@ impl<Db: Database> InternalStorage<Db> {
         ensures
             self.has(key) ==> r is Some && r->Some_0.value.val() == self.val(key) && r->Some_0.time_updated.t() == self.stamp(key), //@O C01.get_source_node_present
             !self.has(key) ==> r is None, //@O C01.get_source_node_absent
-        //@canary CANARY.get_source_node r is None,
 //@end
 
 //@fn rel=crates/pico/src/database.rs name=insert_source_node within="impl<Db: Database> InternalStorage<Db>" vis=pub ret=r
@@ -316,7 +346,6 @@ impl<Db: Database> InternalStorage<Db> {
                 final(self).now() == old(self).now(), //@O C02.O-7a_equal_write_keeps_clock
             old(self).has(source_id.key) && old(self).val(source_id.key) == source.val() ==>
                 final(self).stamp(source_id.key) == old(self).stamp(source_id.key), //@O C02.O-7b_equal_write_keeps_stamp
-        //@canary CANARY.set_source final(self).now() == old(self).now(),
 //@end
 
 //@fn rel=crates/pico/src/database.rs name=remove_source within="impl<Db: Database> InternalStorage<Db>" vis=pub serves=C01,C02
@@ -330,7 +359,6 @@ impl<Db: Database> InternalStorage<Db> {
             final(self).derived_side_unchanged(old(self)), //@O C01+C02.O-3_remove_source_frame_derived_side
             old(self).has(id.key) ==> final(self).now() > old(self).now(), //@O C01.O-3_remove_source_advances_clock
             !old(self).has(id.key) ==> final(self).now() == old(self).now(), //@O C02.O-3_remove_absent_is_inert
-        //@canary CANARY.remove_source final(self).has(id.key),
 //@end
 }
 
@@ -357,7 +385,6 @@ impl<Db: Database> Storage<Db> {
             old(self).internal.has(r.key) && old(self).internal.val(r.key) != source.val() ==>
                 final(self).internal.now() > old(self).internal.now()
                 && final(self).internal.stamp(r.key) == final(self).internal.now(), //@O C01.Storage_set_changed_value_advances_clock
-        //@canary CANARY.Storage_set !final(self).internal.has(r.key),
 //@end
 
 //@fn rel=crates/pico/src/database.rs name=remove within="impl<Db: Database> Storage<Db>" vis=pub serves=C01
@@ -381,6 +408,15 @@ impl<Db: Database> Storage<Db> {
             old(self).internal.has(T::singleton_key_spec()) ==> final(self).internal.now() > old(self).internal.now(), //@O C01.Storage_remove_singleton_advances_clock
 //@end
 }
+
+//@fn rel=crates/pico/src/execute_memoized_function.rs name=source_node_changed_since vis=pub ret=r serves=C01,C02
+//@contract
+    requires db.storage_spec().internal.wf(),
+    ensures
+        // O-4: a recorded source dependency is stale iff the source is gone or was
+        // stamped strictly after the recorded time
+        r == (!db.storage_spec().internal.has(key) || db.storage_spec().internal.stamp(key) > since.t()), //@O C01+C02.O-4_source_changed_iff_absent_or_newer
+//@end
 
 } // verus!
 fn main() {}
